@@ -126,6 +126,8 @@ class CallMixin:
                 return [(V('now', ev.seq), st)]
             if name in ('contextlib.suppress',):
                 return [(V('suppress', tuple(args)), st)]
+            if name == 'typing.cast' and len(args) == 2 and not kwargs:
+                return [(args[1], st)]        # the identity function at run time
             ev = self.emit(st, 'EXT', node, name=name, args=args, kwargs=kwargs)
             res = [(V('ext', name, ev.seq), st)]
             return self.after_call(ev, res)
